@@ -13,6 +13,7 @@ from __future__ import annotations
 
 import json
 import math
+import os
 import random
 
 from sim import world
@@ -44,12 +45,18 @@ def _gen_coord(rng, size):
     if r < 0.90:
         return float(rng.randint(-12, 12))
     sign = rng.choice([-1.0, 1.0])
+    if rng.random() < 0.2:
+        # around 2**31 / 2**33 / 1e9: integer conversions that are not arbitrary-precision break here
+        return sign * (rng.choice([2.0 ** 31, 2.0 ** 33, 1e9, 2.0 ** 24]) + rng.randint(-8, 8)
+                       + rng.choice([0.0, 0.25, 0.5]))
     return sign * round(rng.uniform(1e4, 1e5), 3)
 
 
 def _gen_point(rng, size, others):
     """A point; with probability 1/2 placed relative to an existing one so that the
     pair is just inside / on / just outside the cut-off, along 1-3 axes."""
+    if others and rng.random() < 0.06:
+        return list(rng.choice(others))  # two distinct atoms at exactly the same position
     if others and rng.random() < 0.5:
         base = rng.choice(others)
         f = rng.choice([0.999999, 1.0, 1.000001, 0.5, 0.9, 0.25])
@@ -100,6 +107,15 @@ def gen_component_history(seed):
             nxt += 1
             if nxt >= natoms and not live:
                 natoms += 1
+        elif r < 0.30 and live and nxt < natoms + 4:
+            # a new atom made as a copy of an existing one (Atom(atom=src)), placed nearby,
+            # unregistered (legal no-op remove) and then registered
+            src = rng.choice(live)
+            p = [coords[src][k] + rng.choice([0.0, 0.0, 0.4, -0.4, 1.5]) for k in range(3)]
+            coords[nxt] = p
+            known[nxt] = p
+            ops.append(["clone", nxt, src, p])
+            nxt += 1
         elif r < 0.40 and len(live) > 1:
             i = rng.choice(live)
             del coords[i]
@@ -128,6 +144,10 @@ def gen_component_history(seed):
     return ops
 
 
+class IllegalHistory(Exception):
+    """Raised when a (shrunk) candidate history is not one the call sites could produce."""
+
+
 class _Bio:
     """What Cells.assign_cells needs from a biomolecule: .atoms"""
 
@@ -149,14 +169,24 @@ def run_component_history(ops, stats=None):
     def cellidx(v, sz):
         return math.floor(v / sz)
 
-    def mk(i, p):
-        a = Atom(type_="ATOM")
-        a.name = f"X{i}"
+    def mk(i, p, src=None):
+        if src is not None:
+            a = Atom(atom=src, type_="ATOM", residue=None)
+        else:
+            a = Atom(type_="ATOM")
+        # few distinct names / serials on purpose: identity, not name, distinguishes atoms
+        a.name = ("CA", "N", "O", "H")[i % 4]
+        a.serial = i % 3
+        a.res_seq = 1
         a.x, a.y, a.z = p
         atoms[i] = a
         return a
 
+    pending = set()  # spawned, waiting for the rebuild that registers them
+
     def check(step):
+        if pending:
+            raise IllegalHistory("atoms spawned but never registered by a rebuild")
         nq = 0
         for i in live:
             a = atoms[i]
@@ -177,7 +207,8 @@ def run_component_history(ops, stats=None):
             expids = {id(b) for b in exp}
             if set(gotids) != expids:
                 missing = [j for j in live if id(atoms[j]) in expids - set(gotids)]
-                ghosts = [b.name for b in got if id(b) not in expids]
+                ghosts = [next((j for j, x in atoms.items() if x is b), "?") for b in got
+                          if id(b) not in expids]
                 kind = "missing" if missing else "ghost"
                 return {"kind": kind, "step": step, "query": i, "missing": missing,
                         "ghost": ghosts, "size": size,
@@ -200,16 +231,28 @@ def run_component_history(ops, stats=None):
         elif k == "spawn":
             mk(op[1], op[2])
             live.append(op[1])
+            pending.add(op[1])
             continue  # not registered yet; a rebuild follows
         elif k == "create":
             a = mk(op[1], op[2])
             live.append(op[1])
             cells.add_cell(a)
+        elif k == "clone":
+            if op[2] not in atoms:
+                raise IllegalHistory("clone of an atom that does not exist")
+            if op[2] in atoms:
+                a = mk(op[1], op[3], src=atoms[op[2]])
+                live.append(op[1])
+                cells.remove_cell(a)  # never registered: must be a no-op
+                cells.add_cell(a)
         elif k == "delete":
-            if op[1] in live:
-                cells.remove_cell(atoms[op[1]])
-                live.remove(op[1])
+            if op[1] not in live or op[1] in pending:
+                raise IllegalHistory("delete of an atom that is not registered")
+            cells.remove_cell(atoms[op[1]])
+            live.remove(op[1])
         elif k == "move":
+            if op[1] not in live or op[1] in pending:
+                raise IllegalHistory("move of an atom that is not registered")
             if op[1] in live:
                 a = atoms[op[1]]
                 if stats is not None:
@@ -232,15 +275,31 @@ def run_component_history(ops, stats=None):
             size = op[1]
             cells = cells_mod.Cells(size)
             cells.assign_cells(_Bio([atoms[i] for i in live]))
+            pending.clear()
             if stats is not None:
                 stats["rebuild"] += 1
         elif k == "noop_remove":
-            if op[1] in atoms and op[1] not in live:
-                cells.remove_cell(atoms[op[1]])
+            if op[1] not in atoms or op[1] in live:
+                raise IllegalHistory("no-op remove needs an existing, unregistered atom")
+            cells.remove_cell(atoms[op[1]])
         bad = check(step)
         if bad:
             return bad
     return None
+
+
+def run_component_history_safe(ops, stats=None):
+    """An exception raised by the cell map during a legal history is itself a violation."""
+    try:
+        return run_component_history(ops, stats)
+    except IllegalHistory:
+        raise
+    except Exception as e:  # noqa: BLE001
+        import traceback
+        tb = traceback.extract_tb(e.__traceback__)
+        where = [f"{os.path.basename(f.filename)}:{f.lineno}" for f in tb][-2:]
+        return {"kind": "exception", "exc": type(e).__name__, "text": str(e)[:200],
+                "where": where}
 
 
 def _violation_class(v):
@@ -251,7 +310,7 @@ def shrink_component(ops, want):
     """ddmin over the op list (first op 'new' is kept), then coordinate simplification."""
     def fails(cand):
         try:
-            return _violation_class(run_component_history(cand)) == want
+            return _violation_class(run_component_history_safe(cand)) == want
         except Exception:  # noqa: BLE001 - an ill-formed candidate is simply rejected
             return False
 
@@ -299,7 +358,7 @@ def job_component(job, scratch):
         nops += len(ops)
         c0, r0 = stats["cross"], stats["rebuild"]
         d0 = len(stats["dirs"])
-        bad = run_component_history(ops, stats)
+        bad = run_component_history_safe(ops, stats)
         if first_sample is None:
             first_sample = ops
         if stats["cross"] > c0 or stats["rebuild"] > r0 + 1:
@@ -317,7 +376,7 @@ def job_component(job, scratch):
 
 @world.job_kind("c14.component_replay")
 def job_component_replay(job, scratch):
-    bad = run_component_history(job["ops"])
+    bad = run_component_history_safe(job["ops"])
     return {"violation": ({"subcheck": "component", "class": bad["kind"], "detail": bad,
                            "ops": job["ops"]} if bad else None)}
 
